@@ -510,7 +510,7 @@ func (r *fcgiRig) addReq(i int) {
 	if st.Draw(3) == 0 {
 		q.hdrs = append(q.hdrs, [2]string{"X-Multi", "one"}, [2]string{"X-Multi", "two"})
 	}
-	if q.method != "GET" && q.method != "HEAD" && q.method != "OPTIONS" && q.method != "DELETE" {
+	if q.method != "GET" && q.method != "HEAD" && (q.method != "OPTIONS" && q.method != "DELETE" || st.Draw(3) == 0) {
 		bl := []int{0, 1, 100, 65499, 65500, 65501, 131000}[st.Draw(7)]
 		q.body = make([]byte, bl)
 		for k := range q.body {
@@ -566,7 +566,7 @@ func (r *fcgiRig) addReq(i int) {
 	for _, h := range q.hdrs {
 		fmt.Fprintf(&rb, "%s: %s\r\n", h[0], h[1])
 	}
-	if len(q.body) > 0 || (q.method == "POST" || q.method == "PUT") {
+	if q.body != nil || (q.method == "POST" || q.method == "PUT") {
 		rb.WriteString("Content-Type: application/x-test\r\n")
 		if q.chunked {
 			rb.WriteString("Transfer-Encoding: chunked\r\n")
@@ -706,7 +706,7 @@ func (r *fcgiRig) judge() {
 		for k, v := range hv {
 			want[k] = strings.Join(v, ", ")
 		}
-		hasBody := q.method == "POST" || q.method == "PUT"
+		hasBody := q.method == "POST" || q.method == "PUT" || q.body != nil
 		if hasBody {
 			want["CONTENT_TYPE"] = "application/x-test"
 			if !q.chunked {
